@@ -52,6 +52,7 @@ def run(repo: Repo, chk: Check) -> None:
     type_sets(repo, chk)
     dispatcher_guard(repo, chk)
     symmetric(repo, chk)
+    dealloc_clause(repo, chk)
     barrier_survives(repo, chk)
     order(repo, chk)
 
@@ -287,6 +288,32 @@ def _symmetric_tail(repo: Repo, chk: Check, f: Func, fl: Flow) -> None:
                "enclosing loops are searched upwards",
                "only `producer.parent_op() == consumer.parent_op()` is tested: with the producer in an outer loop body and the consumer in a nested loop "
                "(or vice versa) no barrier is placed on the outer back-edge")
+
+
+# --------------------------------------------------------------------------- a dealloc of a value any walked op touches
+def dealloc_clause(repo: Repo, chk: Check) -> None:
+    chk.rule(
+        "C13.dealloc",
+        "a memref.dealloc that uses an operand or result of ANY walked op becomes pending, whatever core (if any) that op is bound to: "
+        "allocs, subviews and casts are bound to no core, and they are the only ops through which the pass sees the dealloc of a buffer "
+        "that is accessed through a view",
+        floor=1,
+    )
+    f, fl = flow_of(repo, chk, BARRIER, "InsertSyncBarrier.apply")
+    apps = [s for s in fl.calls("append") if s.reachable and has_fact(s, ["isinstance($u.operation, DeallocOp)", "isinstance($u.operation, memref.DeallocOp)",
+                                                                        "isinstance($u, DeallocOp)"])]
+    if not apps:
+        chk.bad("C13.dealloc", f"{f.key}:dealloc", f.where, "no path makes a dealloc user pending: the buffer can be freed by one core while the other still accesses it")
+        return
+    walk = [x for x in fl.stmts(ast.For) if x.reachable and not [l for l in x.loops if isinstance(l, ast.For)]]
+    base = set(walk[0].fact_texts) if walk else set()
+    for n_, s in enumerate(apps, 1):
+        new = [fa for fa in s.facts if fa.kind == "atom" and fa.text not in base]
+        extra = [fa.text for fa in new if norm.any_match(["isinstance($u.operation, DeallocOp)", "isinstance($u.operation, memref.DeallocOp)", "isinstance($u, DeallocOp)"], fa.expr) is None]
+        chk.result(not extra, "C13.dealloc", f"{f.key}:dealloc#{n_}", s.where(),
+                   "a dealloc user of any walked op's value becomes pending unconditionally",
+                   f"the dealloc of a value is only made pending under {[e[:80] for e in extra]}: for an alloc / subview / cast (bound to no core) the test fails, and "
+                   "a buffer written through a view is freed without a barrier", s.fact_texts)
 
 
 # --------------------------------------------------------------------------- barriers survive until lowered
